@@ -34,6 +34,18 @@ Section TopK.
     - destruct (lt x a); simpl; rewrite ?IH; intuition.
   Qed.
 
+  Lemma ins_perm x l : Permutation (ins x l) (x :: l).
+  Proof.
+    induction l as [|a t IH]; simpl; [apply Permutation_refl|]. destruct (lt x a); [apply Permutation_refl|].
+    eapply Permutation_trans; [apply perm_skip, IH|apply perm_swap].
+  Qed.
+  Lemma ssort_perm l : Permutation (ssort l) l.
+  Proof.
+    induction l as [|x l IH] using rev_ind; [apply Permutation_refl|]. rewrite ssort_snoc.
+    eapply Permutation_trans; [apply ins_perm|]. eapply Permutation_trans; [apply perm_skip, IH|].
+    apply Permutation_cons_append.
+  Qed.
+
   Lemma ins_sorted x l : sorted l -> sorted (ins x l).
   Proof.
     induction l as [|a t IH]; simpl; intros Hs.
